@@ -112,9 +112,10 @@ class OutgoingBallsHandler(BallDeviceStateHandler):
                     incoming_ball_at_target = self._add_incoming_ball_to_target(eject_request.target)
                     result = await self._handle_confirm(eject_request, ball_eject_process,
                                                         incoming_ball_at_target, 1)
+                    await self.ball_device.ball_count_handler.end_eject(ball_eject_process, result)
                     if result:
-                        await self.ball_device.ball_count_handler.end_eject(ball_eject_process, True)
                         continue
+                    # the ball came back: leave eject mode (count lock released) and eject it like any other ball
 
                 if not await self._ejecting(eject_request):
                     return
